@@ -140,7 +140,8 @@ def make_cases(tier, seed, n_random=None, maxlen=None, long_n=None):
                 # token-id / byte vocabularies: terminals are the integers 0, 1, 2 - the parsers number their nonterminals with
                 # integers too, so a terminal must be recognised by the vocabulary, not by its type (seeded change C04-3)
                 n_ids += 1
-                ids = {a: j for j, a in enumerate(sorted(gv.V))}
+                from vlib.dom_cfg import SPARSE_IDS
+                ids = {a: SPARSE_IDS[j] for j, a in enumerate(sorted(gv.V))}
                 gi = type(gv)(gv.S, frozenset(ids.values()), [(w, h, tuple(ids.get(y, y) for y in b)) for w, h, b in gv.rules])
                 cases.append(dict(kind="short", name=f"{name}~{vname}#ids", g=gi, heap="real", maxlen=bound(tier, gv, maxlen), rename="id", order=None))
     shapes = long_shapes()
